@@ -35,6 +35,8 @@ PROPS["C02"] = {
         {"entry": IOS_ACL, "quick": {"N": "3", "K": "7"}, "thorough": {"N": "3", "K": "12"},
          "covers": ["move emitted (joined delete+add)", "no change reported", "changes emitted", "pure inserts and deletes around common lines"]},
         {"entry": IOS_ACL, "quick": {"N": "2", "K": "8"}, "thorough": {"N": "4", "K": "6"}},
+        # long same-action runs: device <=3 lines, target <=5 lines from 4 permit + 2 deny lines (thorough only)
+        {"entry": IOS_ACL, "quick": {"N": "2", "NB": "3", "menu": "B"}, "thorough": {"N": "3", "NB": "5", "menu": "B"}},
     ],
 }
 PROPS["C14"] = dict(PROPS["C02"], explanation=_cisco_level + " C14: after every executed step of the script the verdict of a symbolic packet class on which old and new ACL agree equals that verdict (one SMT query per step).")
